@@ -247,6 +247,15 @@ func verifDir() string {
 	return "/verif"
 }
 
+// outDir is where evidence and replay artefacts go: /verif, unless a mutant / seeded-change evaluation
+// redirects them so that the committed evidence always describes the unchanged tree.
+func outDir() string {
+	if d := os.Getenv("VERIF_OUT_DIR"); d != "" {
+		return d
+	}
+	return verifDir()
+}
+
 func loadInstr() map[string]int {
 	m := map[string]int{}
 	if p := os.Getenv("VERIF_INSTR"); p != "" {
@@ -401,7 +410,8 @@ func finish(p *Prop, tier string, seed int64, r *Result, wall float64) int {
 	sort.Strings(sigs)
 	knownMatched := []string{}
 	newViol := 0
-	os.MkdirAll(filepath.Join(vd, "replays"), 0755)
+	od := outDir()
+	os.MkdirAll(filepath.Join(od, "replays"), 0755)
 	for _, s := range sigs {
 		v := r.Violations[s]
 		if txt, ok := known.Findings[p.ID+" "+s]; ok {
@@ -411,7 +421,7 @@ func finish(p *Prop, tier string, seed int64, r *Result, wall float64) int {
 		}
 		newViol++
 		h := sha256.Sum256([]byte(s))
-		path := filepath.Join(vd, "replays", fmt.Sprintf("%s-%s.json", p.ID, hex.EncodeToString(h[:6])))
+		path := filepath.Join(od, "replays", fmt.Sprintf("%s-%s.json", p.ID, hex.EncodeToString(h[:6])))
 		art := map[string]any{"property": p.ID, "sig": s, "desc": v.Desc, "case": v.Case, "go_test": v.GoTest, "cases_with_this_signature": r.ViolCount[s]}
 		b, _ := json.MarshalIndent(art, "", " ")
 		os.WriteFile(path, b, 0644)
@@ -459,8 +469,8 @@ func finish(p *Prop, tier string, seed int64, r *Result, wall float64) int {
 		"coverage": cov, "assumptions": p.Assumptions, "wall_s": wall, "violations": newViol,
 	}
 	b, _ := json.MarshalIndent(ev, "", " ")
-	os.MkdirAll(filepath.Join(vd, "evidence"), 0755)
-	os.WriteFile(filepath.Join(vd, "evidence", p.ID+".json"), b, 0644)
+	os.MkdirAll(filepath.Join(od, "evidence"), 0755)
+	os.WriteFile(filepath.Join(od, "evidence", p.ID+".json"), b, 0644)
 	keys := []string{}
 	for k := range r.Counters {
 		keys = append(keys, k)
